@@ -8,7 +8,9 @@ from sa.rules.C01 import Sym, bind_call_args, codec_share_size, dominated_by, nf
 
 EXPLANATION = (
     "Decided (wrapper conditions only): (1) zfec.Encoder and zfec.Decoder are built with (required_shares, max_shares) in "
-    "that order from the set_params arguments, and both set_params take (data_size, required_shares, max_shares); "
+    "that order from the set_params arguments (the construction is found by following the value kept in self.encoder / "
+    "self.decoder back through locals, helper functions / methods and caches), and both set_params take (data_size, "
+    "required_shares, max_shares); "
     "(2) encoder and decoder derive the same share_size formula and get_block_size returns it; (3) decode hands zfec the "
     "blocks and the share numbers in the caller's order (order-preserving int conversion) only after both length "
     "preconditions; (4) encode checks every input piece against share_size before calling zfec, passes the pieces and the "
@@ -22,14 +24,20 @@ EXPLANATION = (
     "give up the reactor turn while zfec runs in the CPU thread pool, so calls overlap: what one call hands to zfec (followed "
     "through helper methods, closures, functools.partial and the thread-pool runners) depends on no instance / class / module "
     "state that encode/decode or anything they run writes and that is read back after the turn was given up (in the thread "
-    "pool or after an await); results are returned from the call's own frame (3, 4).  Undecided: that any k blocks determine the segment (zfec); "
+    "pool or after an await); results are returned from the call's own frame (3, 4); (7) the zfec object a codec instance works "
+    "with is the encoding matrix of that instance's own (k, N): every origin of the value set_params keeps (every reaching "
+    "definition, both arms of conditionals, return values of helpers) is a zfec construction, and any state outliving the "
+    "call that the value is taken from or put into on the way (module / class level table, singleton slot, memoising "
+    "decorator) is keyed by an expression that depends on both required_shares and max_shares (or on the instance itself); "
+    "no other method of the class rebinds the attribute.  Undecided: that any k blocks determine the segment (zfec); "
     "which segment is the tail and the selection of the tail codec, tail sizes and the trimming of the tail padding after "
     "decode (value-level here; the consistent selection is decided by C01.6 for immutable files and by C09.5 / C09.10 for "
     "mutable files - the CRS decoders of one file differ only in data_size, which decode does not use); the salt taken "
     "from the entries; the entries Retrieve.decode receives from the in-place update (only _validate_block's results are "
     "followed); that Retrieve's own `at least k shares` assertion holds (CRSDecoder.decode re-checks `exactly k`, 3).")
 TECHNIQUE = ("static analysis: symbolic normal forms of wrapper arguments, CFG gate rules for the preconditions, paired-append "
-             "analysis, inter-procedural def-use cone of the zfec arguments against per-call writes to shared state")
+             "analysis, inter-procedural def-use cone of the zfec arguments against per-call writes to shared state, backward "
+             "value-origin trace of the kept zfec object with key-dependence of every cache on the way")
 
 ENC = "codec:CRSEncoder"
 DEC = "codec:CRSDecoder"
@@ -285,6 +293,259 @@ def order_preserving(e, param):
     return False
 
 
+# ------------------------------------------------------------------ where the zfec object of a codec instance comes from
+# set_params keeps a zfec.Encoder / zfec.Decoder on the instance.  The value kept there is followed backwards - through
+# locals (every reaching definition), conditional expressions, helper functions / methods (their return values, with the
+# helper's parameters bound to the arguments of the call) - to its *origins*: constructions zfec.X(..), and reads of state
+# that outlives the call (a module / class / instance level cache, a memoising decorator).  Everything is expressed over
+# the parameters of set_params, so `built from k and N` and `keyed by k and N` are decided whatever the spelling.
+MEMO_DECORATORS = ("lru_cache", "cache", "memoize", "memoized", "memoise", "cached")
+PLAIN_DECORATORS = ("staticmethod", "classmethod")
+ACCESSORS = ("get", "setdefault", "pop")
+
+
+class Frame:
+    """One function on the way from set_params to the zfec construction: set_params itself (parent None) or a helper it
+    calls (binding: helper parameter -> argument AST in the parent's scope, call_node: the parent's CFG node of the call)."""
+
+    def __init__(self, idx, fn, parent=None, call_node=None, binding=None):
+        self.idx, self.fn, self.parent, self.call_node, self.binding = idx, fn, parent, call_node, dict(binding or {})
+        self.sym = Sym(idx, fn, expand_attrs=True)
+        self.plain = Sym(idx, fn)
+        self.names = frame_names(fn)
+        self.top = parent.top if parent is not None else self
+
+    def chain(self):
+        f, out = self, []
+        while f is not None:
+            out.append(f.fn)
+            f = f.parent
+        return out
+
+    def lift(self, node, e):
+        """e (evaluated at node) as an AST over the parameters of set_params: locals are replaced by their definitions,
+        instance attributes by what set_params stored in them before the call, helper parameters by the arguments."""
+        v = self.sym.expand(node, e)
+        if self.parent is None:
+            return v
+        tag = "@" + self.fn.name
+        mapping = dict(self.binding)
+        for x in ast.walk(v):
+            if isinstance(x, ast.Name) and x.id not in mapping and x.id != "self" and (x.id in self.names or x.id in self.fn.params):
+                mapping[x.id] = ast.Name(id=x.id + tag, ctx=ast.Load())         # a local of the helper: not the parent's
+        return self.parent.lift(self.call_node, subst_names(v, mapping))
+
+    def deps(self, node, e):
+        """The names / attribute paths (over set_params' scope) the value of e at node may depend on: also through
+        locals with several definitions (flow-insensitive closure inside this function)."""
+        parts = [e]
+        for p in sorted(depends_on(self.fn, e)):
+            if (p in self.fn.params and p != "self") or p.startswith("self."):
+                parts.append(ast.parse(p, mode="eval").body)
+        out = set()
+        for x in parts:
+            out |= leaves(self.lift(node, x))
+        return out
+
+
+class Origin:
+    """kind 'ctor': expr is a call zfec.X(..) (name: the resolved dotted name); 'memo': expr reads state that outlives the
+    call - path, under keys (ASTs at `node`; none for a bare attribute / global); 'opaque': not understood (why)."""
+
+    def __init__(self, kind, frame, node, expr, name=None, path=None, keys=(), why=""):
+        self.kind, self.frame, self.node, self.expr, self.name, self.path, self.keys, self.why = \
+            kind, frame, node, expr, name, path, list(keys), why
+
+
+def _resolved_call_name(module, call):
+    p = call_name(call) or ""
+    head, _dot, rest = p.partition(".")
+    full = module.imports.get(head)
+    return (full + ("." + rest if rest else "")) if full else p
+
+
+def _peel(e):
+    """container[k1][k2] / container.get(k1)[k2] / ... -> (container expression, [k1, k2], [default values])."""
+    keys, dflt, cur = [], [], e
+    while True:
+        if isinstance(cur, ast.Subscript):
+            keys.insert(0, cur.slice)
+            cur = cur.value
+        elif isinstance(cur, ast.Call) and isinstance(cur.func, ast.Attribute) and cur.func.attr in ACCESSORS and cur.args \
+                and not cur.keywords and not any(isinstance(a, ast.Starred) for a in cur.args):
+            if not keys:                # the outermost accessor: its default is a possible result (inner ones: a sub-table)
+                dflt.extend(cur.args[1:2])
+            keys.insert(0, cur.args[0])
+            cur = cur.func.value
+        else:
+            return cur, keys, dflt
+
+
+def _is_table(v):
+    return isinstance(v, (ast.Dict, ast.DictComp)) or (isinstance(v, ast.Call) and call_tail(v) in (
+        "dict", "defaultdict", "OrderedDict", "WeakValueDictionary"))
+
+
+def _memo_fills(frame, path):
+    """(CFG node, keys, stored value, target AST) for every store the function makes into the shared container / slot."""
+    out, fn = [], frame.fn
+    for n in fn.cfg().nodes:
+        if n.kind == "stmt" and isinstance(n.ast, (ast.Assign, ast.AnnAssign)) and getattr(n.ast, "value", None) is not None:
+            for t in (n.ast.targets if isinstance(n.ast, ast.Assign) else [n.ast.target]):
+                if isinstance(t, ast.Subscript):
+                    base, keys, _d = _peel(frame.plain.expand(n, ast.Subscript(value=t.value, slice=t.slice, ctx=ast.Load())))
+                    if attr_path(base) == path and not _is_table(n.ast.value):
+                        out.append((n, keys, n.ast.value, t))
+                elif isinstance(t, (ast.Name, ast.Attribute)) and attr_path(t) == path:
+                    out.append((n, [], n.ast.value, t))
+        for c in node_calls(n):
+            if isinstance(c.func, ast.Attribute) and c.func.attr in ("setdefault", "update", "__setitem__"):
+                base, keys, _d = _peel(frame.plain.expand(n, c.func.value))
+                if attr_path(base) != path:
+                    continue
+                if c.func.attr == "update" or len(c.args) != 2 or c.keywords:
+                    out.append((n, None, None, c))
+                elif _is_table(c.args[1]):
+                    continue            # creates the next level of a nested table, not an entry
+                else:
+                    out.append((n, keys + [c.args[0]], c.args[1], c))
+    return out
+
+
+def coder_origins(frame, node, e, out, seen, depth=0):
+    """Append to `out` the origins of the value of e at node (see the section comment)."""
+    fn = frame.fn
+    if depth > 16:
+        out.append(Origin("opaque", frame, node, e, why="definitions nested too deeply"))
+        return
+    while isinstance(e, ast.Await):
+        e = e.value
+    if isinstance(e, ast.Constant) and e.value is None:
+        return
+    if isinstance(e, ast.IfExp):
+        coder_origins(frame, node, e.body, out, seen, depth + 1)
+        coder_origins(frame, node, e.orelse, out, seen, depth + 1)
+        return
+    if isinstance(e, ast.BoolOp):
+        for v in e.values:
+            coder_origins(frame, node, v, out, seen, depth + 1)
+        return
+    if isinstance(e, ast.NamedExpr):
+        coder_origins(frame, node, e.value, out, seen, depth + 1)
+        return
+    if isinstance(e, ast.Name):
+        if shared_path(fn, e.id, frame.names):
+            out.append(Origin("memo", frame, node, e, path=e.id))            # a module global / `global` name
+            return
+        defs = frame.plain.rd.get(node.id, {}).get(e.id)
+        if not defs:
+            out.append(Origin("opaque", frame, node, e, why="%s has no definition here" % e.id))
+            return
+        for d in sorted(defs, key=str):
+            if (id(frame), d, e.id) in seen:
+                continue
+            seen.add((id(frame), d, e.id))
+            if d == C.PARAM_DEF:
+                if frame.parent is not None and e.id in frame.binding:
+                    coder_origins(frame.parent, frame.call_node, frame.binding[e.id], out, seen, depth + 1)
+                else:
+                    out.append(Origin("opaque", frame, node, e, why="it is the parameter %s of %s" % (e.id, short(fn))))
+                continue
+            dn = frame.plain.cfg.nodes[d]
+            v = frame.plain.fnorm._def_value(dn, e.id)
+            if v is None:
+                out.append(Origin("opaque", frame, dn, e, why="%s is bound by %s" % (e.id, src(fn, dn.ast))))
+            else:
+                coder_origins(frame, dn, v, out, seen, depth + 1)
+        return
+    if isinstance(e, ast.Call):
+        full = _resolved_call_name(fn.module, e)
+        if full.startswith("zfec."):
+            out.append(Origin("ctor", frame, node, e, name=full))
+            return
+    if isinstance(e, (ast.Subscript, ast.Call, ast.Attribute)):
+        base, keys, dflt = _peel(frame.plain.expand(node, e))
+        p = attr_path(base)
+        if (keys or isinstance(e, ast.Attribute)) and p and p != "self" and shared_path(fn, p, frame.names):
+            out.append(Origin("memo", frame, node, e, path=p, keys=keys))
+            for v in dflt:
+                coder_origins(frame, node, v, out, seen, depth + 1)
+            return
+    if isinstance(e, ast.Call):
+        g = _callee_func(frame.idx, fn, e.func)
+        if g is None or g in frame.chain():
+            out.append(Origin("opaque", frame, node, e, why="the callee of %s is not a function of the package" % src(fn, e)))
+            return
+        try:
+            binding = bind_call_args(g, e)
+        except AnalysisError as err:
+            out.append(Origin("opaque", frame, node, e, why=str(err)))
+            return
+        decos = [call_tail(d) if isinstance(d, ast.Call) else (attr_path(d) or "?").split(".")[-1] for d in g.node.decorator_list]
+        if any(d in MEMO_DECORATORS for d in decos):
+            # a memoising decorator keys the stored result by the arguments of the call
+            out.append(Origin("memo", frame, node, e, path="%s (memoised by @%s)" % (short(g), [d for d in decos if d in MEMO_DECORATORS][0]),
+                              keys=list(e.args) + [k.value for k in e.keywords] + (
+                                  [ast.Name(id="self", ctx=ast.Load())] if attr_path(e.func) and attr_path(e.func).startswith("self.") else [])))
+        elif any(d not in PLAIN_DECORATORS for d in decos):
+            out.append(Origin("opaque", frame, node, e, why="%s is wrapped by @%s" % (short(g), ", @".join(decos))))
+            return
+        sub = Frame(frame.idx, g, frame, node, binding)
+        rets = [t for t in g.cfg().find(is_return) if t.ast.value is not None]
+        if not rets or g.node.__class__ is ast.AsyncFunctionDef or any(isinstance(x, (ast.Yield, ast.YieldFrom)) for x in func_own_nodes(g)):
+            out.append(Origin("opaque", frame, node, e, why="%s does not plainly return a value" % short(g)))
+            return
+        for t in rets:
+            coder_origins(sub, t, t.ast.value, out, seen, depth + 1)
+        return
+    out.append(Origin("opaque", frame, node, e, why="%s is not a construction, a lookup or a call of a helper" % src(fn, e)))
+
+
+def coder_trace(idx, clsq, attr):
+    """(set_params, the CFG nodes that store the coder attribute, origins of the stored values) - the origins include what
+    the function that reads a cache also stores into it."""
+    memo = idx.__dict__.setdefault("_c36_coder", {})
+    if clsq in memo:
+        return memo[clsq]
+    fn = idx.func(clsq + ".set_params")
+    st = [nd for nd in fn.cfg().nodes if attr in node_stores(nd)]
+    if not st:
+        raise AnchorVanished("%s no longer stores %s" % (short(fn), attr))
+    top = Frame(idx, fn)
+    out, seen = [], set()
+    for nd in st:
+        v = assign_value(nd, attr)
+        if v is None:
+            out.append(Origin("opaque", top, nd, nd.ast, why="%s is not bound by a plain assignment" % attr))
+        else:
+            coder_origins(top, nd, v, out, seen)
+    # what is put into a cache that is read on the way is an origin as well
+    done, i = set(), 0
+    fills = {}
+    while i < len(out):
+        o = out[i]
+        i += 1
+        if o.kind != "memo" or "(" in o.path or (id(o.frame), o.path) in done:
+            continue
+        done.add((id(o.frame), o.path))
+        fills[(id(o.frame), o.path)] = fs = _memo_fills(o.frame, o.path)
+        for (n, keys, v, t) in fs:
+            if v is not None:
+                coder_origins(o.frame, n, v, out, seen)
+    # other methods of the class must leave the attribute alone (None as a placeholder is fine)
+    other = []
+    for m in fn.cls.methods.values():
+        if m is fn:
+            continue
+        for nd in m.cfg().nodes:
+            if attr in node_stores(nd):
+                v = assign_value(nd, attr)
+                if not (isinstance(v, ast.Constant) and v.value is None):
+                    other.append((m, nd))
+    memo[clsq] = (fn, st, out, fills, other)
+    return memo[clsq]
+
+
 def run_ctor(ctx, r):
     idx = ctx.idx
     sigs = []
@@ -294,22 +555,87 @@ def run_ctor(ctx, r):
         sigs.append(ps)
         if len(ps) != 3:
             raise AnchorVanished("%s.set_params signature changed: %s" % (clsq, ps))
-        s = Sym(idx, fn, expand_attrs=True)
-        c = the_call(fn, ctor)
-        n = node_of(fn, c)
-        r.site(fn, c, "zfec.%s(k, n)" % ctor)
-        got = [nf(s.expand(n, a)) for a in c.args]
-        r.require(got == [ps[1], ps[2]] and not c.keywords, fn, fn.loc(c), "zfec.%s is built with (%s), not (%s, %s)" % (
-            ctor, ", ".join(got), ps[1], ps[2]))
-        r.require(call_name(c) == "zfec." + ctor, fn, fn.loc(c), "%s builds %s, not zfec.%s" % (short(fn), call_name(c), ctor))
-        st = [nd for nd in fn.cfg().nodes if attr in node_stores(nd)]
-        r.require(len(st) == 1 and assign_value(st[0], attr) is c, fn, fn.loc(c), "the zfec object is not kept in %s" % attr)
+        _fn, st, origins, _fills, _other = coder_trace(idx, clsq, attr)
+        ctors = [o for o in origins if o.kind == "ctor"]
+        if not ctors:
+            raise AnchorVanished("%s: no construction of a zfec object reaches %s (directly, through locals or a helper)" % (short(fn), attr))
+        for o in ctors:
+            c, g = o.expr, o.frame.fn
+            r.site(g, c, "zfec.%s(k, n)" % ctor)
+            args = list(c.args) + [None] * (2 - len(c.args)) if len(c.args) <= 2 else list(c.args)
+            for kw in c.keywords:
+                if kw.arg in ("k", "m") and len(args) == 2 and args["km".index(kw.arg)] is None:
+                    args["km".index(kw.arg)] = kw.value
+                else:
+                    args.append(kw.value)
+            got = [nf(o.frame.lift(o.node, a)) if a is not None else "?" for a in args]
+            r.require(got == [ps[1], ps[2]], g, g.loc(c), "zfec.%s is built with (%s), not (%s, %s) of %s" % (
+                ctor, ", ".join(got), ps[1], ps[2], short(fn)))
+            r.require(o.name == "zfec." + ctor, g, g.loc(c), "%s builds %s, not zfec.%s, for %s" % (short(g), o.name, ctor, attr))
+        r.require(len(st) == 1, fn, fn.loc(st[0].ast), "%s is stored at %d places in %s" % (attr, len(st), short(fn)))
         # the parameters kept for later use are the ones given
         for a, p in (("self.required_shares", ps[1]), ("self.max_shares", ps[2]), ("self.data_size", ps[0])):
             sv = Sym(idx, fn).attr_stores().get(a)
             r.require(sv is not None and nf(sv[1]) == p, fn, fn.loc(sv[0].ast if sv else None), "%s is not set from %s" % (a, p))
     r.require(sigs[0] == sigs[1], idx.func(DEC + ".set_params"), idx.func(DEC + ".set_params").loc(),
               "encoder and decoder set_params take different parameter orders: %s vs %s" % (sigs[0], sigs[1]))
+
+
+def run_coder_source(ctx, r):
+    """A zfec.Encoder / zfec.Decoder is the encoding matrix of ONE (k, N): rows 0..N-1.  A codec instance set up for
+    (k, N) must therefore work with a zfec object built from exactly its own k and N.  Taking the object from state that
+    outlives set_params (a module / class level cache, a memoised factory, a shared singleton) is only sound when the
+    lookup key determines both parameters: under a key of k alone the object of the first N seen is handed to every later
+    (k, N'), and a share number >= the smaller N is decoded (encoded) against rows the matrix does not have - silently."""
+    idx = ctx.idx
+    for clsq, ctor, attr in ((ENC, "Encoder", "self.encoder"), (DEC, "Decoder", "self.decoder")):
+        fn, st, origins, fills, other = coder_trace(idx, clsq, attr)
+        ps = first_positional_params(fn)
+        if len(ps) != 3:
+            raise AnchorVanished("%s.set_params signature changed: %s" % (clsq, ps))
+        need = [ps[1], ps[2]]
+        r.site(fn, st[0].ast, "%s is a zfec.%s of this instance's (k, N): %d origin(s)" % (attr, ctor, len(origins)))
+        r.count(len(origins))
+        for (m, nd) in other:
+            raise AnalysisError("%s is also bound in %s (%s): cannot decide which zfec object the instance works with" % (
+                attr, short(m), src(m, nd.ast)))
+        reported = set()
+
+        def check_key(o_frame, node, keys, where, path, verb):
+            g = o_frame.fn
+            deps = set()
+            for k in keys:
+                deps |= o_frame.deps(node, k)
+            if "self" in deps:           # keyed by the instance itself: as good as an attribute of the instance
+                return
+            missing = [p for p in need if p not in deps]
+            if missing and (g.qual, path) not in reported:
+                reported.add((g.qual, path))
+                have = [p for p in need if p in deps]
+                r.violation(g, g.loc(where), "the zfec.%s kept in %s by %s is %s %s%s, which outlives the instance, %s: not by %s. "
+                            "The object built for the first (%s, %s) seen is handed to every later instance that differs in %s, "
+                            "and share numbers beyond its matrix are %sd against the wrong rows without an error" % (
+                                ctor, attr, short(fn), verb, path,
+                                (" [%s]" % ", ".join(src(g, k) for k in keys)) if keys and all(hasattr(k, "lineno") for k in keys) else "",
+                                ("keyed by %s only" % " and ".join(have)) if have else "under a key that depends on neither %s nor %s" % tuple(need),
+                                " / ".join(missing), ps[1], ps[2], " / ".join(missing), ctor.lower()[:-1]))
+        for o in origins:
+            g = o.frame.fn
+            if o.kind == "opaque":
+                raise AnalysisError("%s: cannot follow the value kept in %s back to a zfec construction: %s (%s)" % (
+                    short(g), attr, src(g, o.expr), o.why))
+            if o.kind != "memo":
+                continue
+            check_key(o.frame, o.node, o.keys, o.expr, o.path, "taken from")
+            if "(" in o.path:            # memoising decorator: filled by the helper's own return value (followed above)
+                continue
+            fs = fills.get((id(o.frame), o.path), [])
+            if not fs:
+                raise AnalysisError("%s reads the zfec object from %s but does not fill it: cannot decide what it holds" % (short(g), o.path))
+            for (n, keys, v, t) in fs:
+                if keys is None:
+                    raise AnalysisError("%s fills %s by %s: cannot follow" % (short(g), o.path, src(g, t)))
+                check_key(o.frame, n, keys, t, o.path, "stored in")
 
 
 def run_share_size(ctx, r):
@@ -746,3 +1072,7 @@ def run(ctx: Context):
     with ctx.rule("C36.6", "R7", "what one encode()/decode() call hands to zfec travels in that call's frame, never through "
                   "instance attributes written per call and read back after the reactor turn was given up", expected=2) as r:
         run_shared_state(ctx, r)
+    with ctx.rule("C36.7", "R6", "the zfec object a codec instance works with is built from that instance's own k and N: every "
+                  "origin of the value set_params keeps is a zfec construction, and state outliving the call that it is taken from "
+                  "(cache, memoised factory, singleton) is keyed by both parameters", expected=2) as r:
+        run_coder_source(ctx, r)
